@@ -495,6 +495,80 @@ class Gen:
         ops.append(op("iseq", V_(T), V_(5)))
         return ops
 
+    # ---- C08: sort of a TABLE (the model's sort_table): rows of one shape (columns of numbers incl. NaN / -0 / infinities, strings,
+    #      and columns the comparator passes over: booleans, nil, code, nested arrays), held by variables and by the table (some rows
+    #      only by the table, some twice), a second name of the table; sort ascending / descending through either name, then rows are
+    #      changed through their variable or through a slot of the table (key columns too: the next sort moves them; a pushBack on a
+    #      row makes the next sort refuse the table); now and then a row of another shape / size or an element that is no row.
+    def table_cell(self, kind, j=None):
+        r = self.rng
+        if kind == 'num':
+            if j is not None: return ('i', 2 * j + r.choice([0, 0, 1]))
+            return self.scalar(1.0) if r.random() < 0.25 else ('i', r.randint(-6, 14))
+        if kind == 'str':
+            if j is not None: return s(b"k%02d" % j)
+            return s(r.choice([b"a", b"A", b"ab", b"aB", b"", b"b", b"B", b"a b", b"ba", b"~", b"0", b"10", b"9"]))
+        if kind == 'bool': return ('b', r.random() < 0.5)
+        if kind == 'arr': return arr(*[num(r.randint(0, 3)) for _ in range(r.choice([0, 1, 2]))])
+        if kind == 'code': return code(r.choice(["{}", "{0}", "{1}"]))
+        return NIL
+
+    def table_history(self):
+        r = self.rng
+        ncol = r.choice([1, 2, 2, 3, 4])
+        cols = [r.choice(['num', 'num', 'num', 'str', 'str', 'bool', 'arr', 'nil', 'code']) for _ in range(ncol)]
+        if r.random() < 0.85:
+            cols[0] = r.choice(['num', 'str'])
+        keycols = [i for i, k in enumerate(cols) if k in ('num', 'str')]
+        big = r.random() < 0.12
+        nrows = r.randint(17, 40) if big else r.choice([2, 3, 3, 4, 5, 6])
+        distinct = big or r.random() < 0.75
+        order = r.sample(range(nrows), nrows)
+
+        def row(i):
+            cells = [self.table_cell(k) for k in cols]
+            if distinct and keycols:
+                cells[keycols[0]] = self.table_cell(cols[keycols[0]], order[i])
+            q = r.random()
+            if q < 0.02: cells.append(num(1))                                                  # a longer row
+            elif q < 0.04 and cells: cells[r.randrange(len(cells))] = r.choice([s(b"x"), num(3), TRUE, arr()])   # another type somewhere
+            return ('A', cells)
+        ops = []
+        T, U = 4, 5
+        nheld = min(nrows, 4)
+        if big:
+            ops.append(op("asg", T, L_(('A', [row(i) for i in range(nrows)]))))
+            for i in range(nheld):                                   # v0..v3: names of rows that live in the table
+                ops.append(op("asg", i, S_(T, r.randrange(nrows))))
+        else:
+            for i in range(nheld):
+                ops.append(op("asg", i, L_(row(i))))
+            ops.append(op("asg", T, L_(('A', []))))
+            for i in r.sample(range(nrows), nrows):
+                ops.append(op("pb", V_(T), V_(i) if i < nheld else L_(row(i))))
+            if r.random() < 0.12: ops.append(op("pb", V_(T), V_(r.randrange(nheld))))          # one row twice
+            if r.random() < 0.04: ops.append(op("pb", V_(T), L_(r.choice([num(1), s(b"x"), hmap()]))))   # an element that is no row
+        ops.append(op("asg", U, V_(T)))
+
+        def change():
+            k = r.random()
+            i = r.randrange(nheld)
+            c = r.randrange(ncol)
+            who = V_(i) if r.random() < 0.6 else S_(r.choice([T, U]), r.randrange(min(nrows, 6)))
+            if k < 0.70: return op("set", who, 2 * c, L_(self.table_cell(cols[c])))
+            if k < 0.76: return op("pb", who, L_(self.table_cell(r.choice(['num', 'str']))))
+            if k < 0.80: return op("dela", who, 2 * c)
+            if k < 0.92: return op("rev", V_(r.choice([T, U])))
+            return op("dela", V_(r.choice([T, U])), 2 * r.randrange(min(nrows, 4)))
+        for _ in range(r.choice([1, 2, 3, 4])):
+            ops.append(op("sort", V_(r.choice([T, U])), r.choice("tf")))
+            for _ in range(r.choice([0, 1, 1, 2, 3])):
+                ops.append(change())
+        ops.append(op("sort", V_(r.choice([T, U])), r.choice("tf")))
+        ops.append(op("pb", V_(r.randrange(nheld)), L_(s(b"end"))))
+        ops.append(op("iseq", V_(T), V_(U)))
+        return ops
+
     # ---- C08: attempts to make a container contain itself, through every inserting operator
     def cycle_history(self, nv=4):
         r = self.rng
